@@ -32,6 +32,10 @@ def run_entry(text, entry, judge=None, opts=None, extra_modules=(), guide=None):
         ex.guide = guide
     if opts.get('tape') is not None:
         ex.tape = opts['tape']
+    if opts.get('concolic_tape') is not None:
+        ex.concolic_tape = opts['concolic_tape']
+    if opts.get('alloc_policy') is not None:
+        ex.alloc_policy = tuple(opts['alloc_policy'])
     status = 'done'
     err = ''
     try:
